@@ -57,7 +57,7 @@ def run(rep, tier, seed):
             rng.shuffle(rrs)
             n = len(rrs)
         try:
-            base = ruledrv.validate_event(len(events) + 1, rrs, doc)
+            base = ruledrv.validate_event(len(events) + 1, rrs, doc, as_data=rng.random() < 0.3)
         except Unencodable:
             rep.skipped_unencodable += 1
             continue
@@ -87,7 +87,7 @@ def run(rep, tier, seed):
             perms = [tuple(rng.sample(idx, n)) for _ in range(4 if tier == "quick" else 10)]
         for p in perms:
             prr = [rrs[j - 1] for j in p]
-            e = ruledrv.validate_event(len(events) + 1, prr, doc, perm=list(p), base=base)
+            e = ruledrv.validate_event(len(events) + 1, prr, doc, perm=list(p), base=base, as_data=rng.random() < 0.3)
             events.append(e)
             recipes[e["id"]] = {"op": "validate", "rules": [ruledrv.lit_rule(r) for r in prr], "doc": to_lit(doc),
                                 "perm": list(p), "base_rules": [ruledrv.lit_rule(r) for r in rrs]}
